@@ -3,6 +3,7 @@ package witness
 import (
 	"net"
 	"net/http/httptest"
+	"strconv"
 	"strings"
 	"testing"
 	"testing/fstest"
@@ -12,7 +13,9 @@ import (
 	"github.com/gofiber/fiber/v3/client"
 	"github.com/gofiber/fiber/v3/middleware/adaptor"
 	"github.com/gofiber/fiber/v3/middleware/cache"
+	"github.com/gofiber/fiber/v3/middleware/limiter"
 	"github.com/gofiber/fiber/v3/middleware/session"
+	"github.com/valyala/fasthttp"
 	"github.com/valyala/fasthttp/fasthttputil"
 )
 
@@ -332,5 +335,92 @@ func TestF52_MountOnEveryListedPrefix(t *testing.T) {
 		if c := do(viaGroup, "GET", "/g"+path).Response.StatusCode(); c != 200 {
 			t.Errorf("GET /g%s: mounted through a group with a prefix list %d", path, c)
 		}
+	}
+}
+
+// F53 (C14): only the first Cache-Control field line of the request was looked at.
+func TestF53_CacheControlOnASecondFieldLine(t *testing.T) {
+	app := fiber.New()
+	app.Use(cache.New())
+	n := 0
+	app.Get("/", func(c fiber.Ctx) error { n++; return c.SendString(strconv.Itoa(n)) })
+	do(app, "GET", "/")
+	rc := newRC("GET", "/")
+	rc.Request.Header.Add("Cache-Control", "max-age=0")
+	rc.Request.Header.Add("Cache-Control", "no-cache")
+	app.Handler()(rc)
+	if string(rc.Response.Header.Peek("X-Cache")) == "hit" {
+		t.Fatalf("a request with `Cache-Control: no-cache` on a second field line was served from the cache (body %q)", rc.Response.Body())
+	}
+}
+
+// F54 (C13): the limiter kept the key string it was given; with ProxyHeader set, c.IP() is a view of the
+// request header, the memory store keeps it as a map key and the next request on the context rewrites it.
+func TestF54_LimiterKeyIsACopy(t *testing.T) {
+	app := fiber.New(fiber.Config{ProxyHeader: "X-Forwarded-For"})
+	app.Use(limiter.New(limiter.Config{Max: 2, Expiration: time.Minute}))
+	app.Get("/", func(c fiber.Ctx) error { return c.SendString("ok") })
+	h := app.Handler()
+	rc := &fasthttp.RequestCtx{}
+	send := func(xff string) int {
+		rc.Request.Reset()
+		rc.Response.Reset()
+		rc.Request.Header.SetMethod("GET")
+		rc.Request.SetRequestURI("/")
+		rc.Request.Header.Set("X-Forwarded-For", xff)
+		h(rc)
+		return rc.Response.StatusCode()
+	}
+	for i, want := range []int{200, 200, 429} {
+		if got := send("10.0.0.1"); got != want {
+			t.Fatalf("10.0.0.1 request %d: %d, want %d", i+1, got, want)
+		}
+	}
+	if got := send("10.0.0.2"); got != 200 {
+		t.Fatalf("first request of 10.0.0.2 on the same connection: %d, want 200 (it was charged to the other key's entry)", got)
+	}
+}
+
+// F55 (C08): a mount prefix written without its leading slash is routed as "/api" but was recorded as "api".
+func TestF55_MountPrefixWithoutLeadingSlash(t *testing.T) {
+	sub := fiber.New(fiber.Config{ErrorHandler: func(c fiber.Ctx, _ error) error { return c.Status(500).SendString("sub") }})
+	sub.Get("/x", func(fiber.Ctx) error { return fiber.ErrTeapot })
+	app := fiber.New(fiber.Config{ErrorHandler: func(c fiber.Ctx, _ error) error { return c.Status(500).SendString("root") }})
+	app.Use("api", sub)
+	if got := string(do(app, "GET", "/api/x").Response.Body()); got != "sub" {
+		t.Fatalf("error raised in the sub-app mounted with Use(\"api\", sub) was handled by %q", got)
+	}
+}
+
+// F56 (C18): path parameters were substituted one after the other; a value containing ":name" of a
+// later parameter was substituted again.
+func TestF56_PathParamValuesAreNotSubstitutedAgain(t *testing.T) {
+	app := fiber.New()
+	app.Get("/*", func(c fiber.Ctx) error { return c.SendString(c.Path()) })
+	ln, err := net.Listen("tcp", "127.0.0.1:0")
+	if err != nil {
+		t.Skip("no loopback listener")
+	}
+	go func() { _ = app.Listener(ln, fiber.ListenConfig{DisableStartupMessage: true}) }()
+	defer func() { _ = app.Shutdown() }()
+	resp, err := client.New().R().SetPathParam("name", ":id").SetPathParam("id", "7").Get("http://" + ln.Addr().String() + "/u/:name")
+	if err != nil {
+		t.Fatal(err)
+	}
+	defer resp.Close()
+	if got := string(resp.Body()); got != "/u/:id" {
+		t.Fatalf("{name: \":id\", id: \"7\"} on /u/:name arrives as %q, want /u/:id", got)
+	}
+}
+
+// F57 (C09): a type wildcard was compared as a bare prefix of the type, without the separator:
+// the offer text/* was selected for the range textual/html.
+func TestF57_TypeWildcardNeedsTheWholeType(t *testing.T) {
+	app := fiber.New()
+	var got string
+	app.Get("/", func(c fiber.Ctx) error { got = c.Accepts("text/*", "application/json"); return nil })
+	do(app, "GET", "/", "Accept", "textual/html, application/json;q=0.1")
+	if got != "application/json" {
+		t.Fatalf("Accept: textual/html, application/json;q=0.1 with offers text/*, application/json selects %q", got)
 	}
 }
